@@ -620,6 +620,9 @@ func (g *gen) frameObligations(key string, allowed map[string]bool) {
 		if c == "alloctop" || c == epochKey || strings.HasPrefix(c, "rangevisited_") {
 			continue
 		}
+		if g.frameSummary {
+			continue // `modifies summary`: callers havoc the computed write set (heap and ghosts), nothing to check
+		}
 		var conj []string
 		for _, r := range g.rets {
 			a, b := g.stGet(g.entry, c), g.stGet(r.st, c)
@@ -649,6 +652,8 @@ func (g *gen) modifiesAllowed(fc *FuncContract) (allowed map[string]bool, all bo
 	allowed = map[string]bool{}
 	for _, m := range fc.Modifies {
 		switch {
+		case m == "summary":
+			g.frameSummary = true
 		case m == "*":
 			all = true
 		case g.cs.GhostVars[m] != "":
